@@ -100,6 +100,17 @@ def creation_and_conversion(L, db, c, qt, u, fu, x=1.5):
         M("Scalar(zero).GetValue(foreign)", lambda: Scalar(c, zero, u).GetValue(fu), case)
         M("derived zero Scalar.GetValue([(foreign,2)])", lambda: (Scalar(c, zero, u) * Scalar(c, 1.0, u)).GetValue([(fu, 2)]), case)
         M("Array[zeros].GetValues(foreign)", lambda: Array(c, [zero, zero], u).GetValues(fu), case)
+    # the reciprocal of an amount is of another dimension than the amount: 1/m is not re-expressed in cm (nor in m), whatever
+    # the sign of the exponent "scales the other way round"
+    same_type = [w for w in db.GetUnits(qt) if w != u][:1] + [u]
+    for w in same_type:
+        for e in (1, 2):
+            M("UnitDatabase.Convert([(u,-e)],[(v,+e)])", lambda: db.Convert(qt, [(u, -e)], [(w, e)], x), case)
+            M("UnitDatabase.Convert([(u,+e)],[(v,-e)])", lambda: db.Convert(qt, [(u, e)], [(w, -e)], x), case)
+        M("reciprocal Scalar.GetValue(plain unit)", lambda: (1.0 / Scalar(c, x, u)).GetValue(w), case)
+        M("reciprocal Scalar.GetValue([(v,1)])", lambda: (1.0 / Scalar(c, x, u)).GetValue([(w, 1)]), case)
+        M("reciprocal Array.GetValues(plain unit)", lambda: (1.0 / Array(c, [x, x], u)).GetValues(w), case)
+        M("squared Scalar.GetValue([(v,-2)])", lambda: (Scalar(c, x, u) * Scalar(c, x, u)).GetValue([(w, -2)]), case)
     M("Array.GetValues(foreign)", lambda: a.GetValues(fu), case, (a,))
     M("Array[nd].GetValues(foreign)", lambda: an.GetValues(fu), case, (an,))
     M("Array.CreateCopy(unit=foreign)", lambda: a.CreateCopy(unit=fu), case, (a,))
